@@ -4,7 +4,8 @@
 (* state carries the complete final detector state (rows, strain list, ...)   *)
 (* so that a dump is a table  sequence -> expected recorder content.          *)
 EXTENDS HCMNL, TLC
-CONSTANTS Vals, MaxLen, Scale
+CONSTANTS Vals, MaxLen, Scale,
+          OnlyReversals     \* TRUE: strictly alternating sequences only (every interior sample a reversal): longer sequences over a larger alphabet at the same cost
 Sym2 == -2..2
 Sym3 == -3..3
 Pos3 == -1..3
@@ -12,9 +13,13 @@ Pos4 == -2..4
 VARIABLES s, out, per
 vars == <<s, out, per>>
 Scaled(q) == [i \in 1..Len(q) |-> Scale * q[i]]
+Alternates(f, v) == IF Len(f) = 0 THEN TRUE
+                    ELSE IF Len(f) = 1 THEN v # f[1]
+                    ELSE (f[Len(f)] - f[Len(f) - 1]) * (v - f[Len(f)]) < 0
 Init == s = <<>> /\ out = H0 /\ per = <<>>
 Next == /\ Len(s) < MaxLen
-        /\ \E v \in Vals : /\ s' = Append(s, v)
+        /\ \E v \in Vals : /\ OnlyReversals => Alternates(s, v)
+                           /\ s' = Append(s, v)
                            /\ out' = IF Distinct2(s') THEN TwoPass(Scaled(s')) ELSE H0
                            /\ per' = IF Distinct2(s') THEN Periodic(Scaled(s')) ELSE <<>>
 Spec == Init /\ [][Next]_vars
